@@ -58,6 +58,12 @@ open_("D17", "C15", "ALTER TABLE ... DROP COLUMN of a middle column leaves every
 open_("D6", "C15", "DROP TABLE inside a session destroys the table before commit (tree deallocated at statement time)", "O-state", "drop_table_inside_session", "findings/D6-drop-table-in-session-destroys-table.json")
 open_("F2", "C15", "a session begun before another transaction's CREATE TABLE fails its next INSERT with 'btree page not found: 0'", "O-res", "ddl_concurrent_with_open_session", "findings/F2-session-insert-after-concurrent-ddl-and-inserts.json")
 
+# ---- findings: hostile statements (C16) ----
+fixed("D18b", "C16", "01e8bb8", "'*' inside an expression, EXISTS, IN (SELECT ...) and scalar sub-queries reached todo!()/unreachable!() in the evaluator and killed a pool worker", "O-res", "findings/D18b-star-inside-expression-panics.json")
+open_("D18a", "C16", "integer division or modulo by zero panics (types/core.rs:185/195) and kills the worker", "O-res", "division_or_modulo_by_zero", "findings/D18a-division-or-modulo-by-zero-panics.json")
+open_("D18f", "C16", "an expression nested a few thousand levels deep (NOT NOT ..., parentheses) overflows the stack: the process aborts", "O-live:process-died", "nesting_deeper_than_200", "findings/D18f-deeply-nested-expression-overflows-the-stack.json")
+open_("D35", "C16", "INSERT INTO t SELECT * FROM t never returns (the scan sees the rows it inserts)", "O-live:hang", "insert_select_from_same_table", "findings/D35-insert-select-from-same-table-never-returns.json")
+
 # ---- open findings: E2 (crash simulator) ----
 open_("D3", "C01", "a transaction open at the crash on a table whose CREATE is still in the log makes open fail ('Table not found'): undo runs before redo", "O-open", "open_txn_on_uncheckpointed_table", "findings/D3-open-txn-on-uncheckpointed-table.json")
 open_("D3b", "C08", "an uncommitted CREATE TABLE in the log at the crash makes open fail ('Table not found' while undoing it)", "O-open", "uncommitted_create_at_crash", "findings/D3b-uncommitted-create-at-crash.json")
